@@ -357,6 +357,7 @@ func checkC01(c *Ctx) {
 	c.Rule("C01.F8", "x-register and IP writes have width XLEN of the table's variant; a possibly negative signed Go integer turned into a k-byte constant is not an operand of a wider node except as the value operand of SignExtend")
 	c.Rule("C01.F9", "an arithmetic node narrower than XLEN is not stored into an x-register without SignExtend")
 	c.Rule("C01.F10", "in Lsh/Rsh/Div and the Sub/Mod/SignedDiv/SignedMod/RshA gadgets the rs1 operand comes first when the other operand is rs2 or an immediate")
+	c.Rule("C01.F11", "W-twin agreement (sibling cross-check): every RV64 entry that the ISA defines as the 32-bit form of an RV32 instruction (mnemonic + 'w', or an atomic '.w') computes, on the path where no register is x0, the same term as its RV32 twin - same operators, operand roles, operation widths and constants - apart from the final sign extension to 64 bits, the 64-bit register-file width and the width of address registers")
 	c.Rule("C01.glue", "Parser.Parse lifts with validEffects(newInstruction(a, bs, matched)) of the matched entry; validEffects calls the entry's effects closure on that instruction and only drops nil effects")
 
 	ri := loadRiscv(c)
@@ -600,6 +601,7 @@ func checkC01(c *Ctx) {
 			sampleTemplates = append(sampleTemplates, key+" ["+condStr(last.Conds)+"] => "+truncate(absint.Render(last.Result), 400))
 		}
 	}
+	checkWTwins(c, ri)
 	c.Extra["template_paths"] = totalPaths
 	c.Extra["template_samples"] = sampleTemplates
 	checkGlue(c)
@@ -648,4 +650,342 @@ func checkGlue(c *Ctx) {
 		}
 	}
 	c.RequireCount("C01.glue validEffects call", n, 1)
+}
+
+// ---------------------------------------------------------------- F11
+
+func nonZeroPath(paths []absint.PathResult) *absint.PathResult {
+	for i := range paths {
+		p := &paths[i]
+		if p.Panicked {
+			continue
+		}
+		ok := true
+		for _, cr := range p.Conds {
+			d := cr.Desc
+			if d == nil || d.Const != 0 || (d.Op != token.EQL && d.Op != token.NEQ) {
+				continue
+			}
+			isZero := (d.Op == token.EQL) == cr.Outcome
+			if d.Neg {
+				isZero = !isZero
+			}
+			if isZero {
+				ok = false
+			}
+		}
+		if ok {
+			return p
+		}
+	}
+	return nil
+}
+
+func effectsOfPath(p *absint.PathResult) []term {
+	var out []term
+	sl, ok := p.Result.(absint.SliceV)
+	if !ok {
+		return nil
+	}
+	for i := 0; i < sl.Len(); i++ {
+		if absint.IsNil(sl.At(i)) {
+			continue
+		}
+		if t, ok := asTerm(sl.At(i)); ok {
+			out = append(out, t)
+		}
+	}
+	return out
+}
+
+func sameInt(a, b absint.IntV) bool {
+	if a.V != b.V || a.Unk != b.Unk {
+		return false
+	}
+	for p := 0; p < 64; p++ {
+		if a.Unk>>uint(p)&1 == 1 && a.Dep[p] != b.Dep[p] {
+			return false
+		}
+	}
+	return true
+}
+
+// termEq compares a term of the 64-bit table with one of the 32-bit table.
+// inAddr: widths of register loads may be 8 vs 4.
+func termEq(a, b absint.Value, inAddr bool) (bool, string) {
+	a, b = absint.UnwrapV(a), absint.UnwrapV(b)
+	switch x := a.(type) {
+	case term:
+		y, ok := b.(term)
+		if !ok {
+			return false, "a " + shortFn(x) + " node corresponds to a non-node"
+		}
+		if x.Fn != y.Fn {
+			return false, shortFn(x) + " vs " + shortFn(y)
+		}
+		if len(x.Args) != len(y.Args) {
+			return false, "different arity of " + shortFn(x)
+		}
+		for i := range x.Args {
+			sub := inAddr
+			if (x.Fn == "expr.NewMemLoad" && i == 1) || (x.Fn == "expr.NewMemStore" && i == 2) {
+				sub = true
+			}
+			// the width argument of an address register load may differ
+			if inAddr && x.Fn == "expr.NewRegLoad" && i == 1 {
+				continue
+			}
+			if inAddr && x.Sig != nil && i < x.Sig.Params().Len() && isExprPkgType(x.Sig.Params().At(i).Type(), "Width") {
+				continue
+			}
+			if ok, why := termEq(x.Args[i], y.Args[i], sub); !ok {
+				return false, shortFn(x) + " argument " + fmt.Sprint(i) + ": " + why
+			}
+		}
+		return true, ""
+	case absint.IntV:
+		y, ok := b.(absint.IntV)
+		if !ok || !sameInt(x, y) {
+			return false, fmt.Sprintf("constant %s vs %s", absint.Render(a), absint.Render(b))
+		}
+		return true, ""
+	case absint.StrV:
+		y, ok := b.(absint.StrV)
+		return ok && x == y, "different key"
+	case absint.OpaqueV:
+		y, ok := b.(absint.OpaqueV)
+		return ok && x.Dep == y.Dep, fmt.Sprintf("a key/value depending on bits %s vs %s", absint.Ranges(x.Dep), absint.Ranges(absint.DepsOf(b)))
+	}
+	return absint.Render(a) == absint.Render(b), "different leaves"
+}
+
+// canonLow renders the term computing the low k bytes of v in a canonical
+// form that is invariant under truncation-transparent rewrites: operations
+// whose low bytes depend only on the low bytes of their operands (Add, Mul,
+// Nand and the bitwise / subtraction / negation gadgets, Lsh in its first
+// operand) may be evaluated at any width >= k with operands of any width >=
+// k, and a sign or zero extension above byte k is invisible. Operations that
+// are not low-closed (comparisons, right shifts, division, ...) keep their
+// own width, at which their operands are normalised.
+func canonLow(in *absint.Interp, ops opConsts, v absint.Value, k int) string {
+	v = absint.UnwrapV(v)
+	t, ok := v.(term)
+	if !ok {
+		switch x := v.(type) {
+		case absint.IntV:
+			m := uint64(1)<<uint(8*k) - 1
+			if k >= 8 {
+				m = ^uint64(0)
+			}
+			y := x
+			y.V &= m
+			y.Unk &= m
+			s := fmt.Sprintf("int{%x/%x", y.V, y.Unk)
+			for p := 0; p < 8*k && p < 64; p++ {
+				if y.Unk>>uint(p)&1 == 1 {
+					s += fmt.Sprintf(",%d:%x", p, y.Dep[p])
+				}
+			}
+			return s + "}"
+		case absint.OpaqueV:
+			return "key‹" + absint.Ranges(x.Dep) + "›"
+		}
+		return absint.Render(v)
+	}
+	w, hasW := widthOf(in, t)
+	arg := func(i, kk int) string { return canonLow(in, ops, t.Args[i], kk) }
+	min := func(a, b int) int {
+		if a < b {
+			return a
+		}
+		return b
+	}
+	switch t.Fn {
+	case "global expr.Zero", "global expr.One":
+		return shortFn(t)
+	case "expr.ConstFromInt", "expr.ConstFromUint", "expr.NewConstInt", "expr.NewConstUint":
+		kk := k
+		if hasW {
+			kk = min(k, w)
+		}
+		return "const(" + arg(0, kk) + ")"
+	case "expr.NewRegLoad":
+		return fmt.Sprintf("reg(%s,%d)", arg(0, 8), min(k, w))
+	case "expr.NewMemLoad":
+		return fmt.Sprintf("load(%s,%s,%d)", arg(0, 8), canonAddr(in, ops, t.Args[1]), w)
+	case "expr.NewBinary":
+		op, _ := t.Args[0].(absint.IntV)
+		switch op.V {
+		case ops.add, ops.mul, ops.nand:
+			kk := min(k, w)
+			return fmt.Sprintf("bin%d(%s,%s,%d)", op.V, arg(1, kk), arg(2, kk), kk)
+		case ops.lsh:
+			kk := min(k, w)
+			return fmt.Sprintf("lsh(%s,%s,%d)", arg(1, kk), arg(2, w), kk)
+		default:
+			return fmt.Sprintf("bin%d(%s,%s,%d)", op.V, arg(1, w), arg(2, w), w)
+		}
+	case "expr.NewLess":
+		kk := min(k, w)
+		return fmt.Sprintf("less@%d(%s,%s,%s,%s)", w, arg(0, w), arg(1, w), arg(2, kk), arg(3, kk))
+	case "exprtools.SignExtend":
+		// sign extension from bit b: the low (b+1) bits are the operand's
+		if bt, ok := asTerm(t.Args[1]); ok && len(bt.Args) >= 1 {
+			if iv, ok := bt.Args[0].(absint.IntV); ok && iv.Known() && int(iv.V)+1 >= 8*k {
+				return canonLow(in, ops, t.Args[0], k)
+			}
+		}
+	case "exprtools.NewWidthGadget":
+		if w >= k {
+			return canonLow(in, ops, t.Args[0], k)
+		}
+	case "exprtools.BitAnd", "exprtools.BitOr", "exprtools.BitXor", "exprtools.Sub":
+		kk := min(k, w)
+		return fmt.Sprintf("%s(%s,%s,%d)", shortFn(t), arg(0, kk), arg(1, kk), kk)
+	case "exprtools.BitNot", "exprtools.Negate":
+		kk := min(k, w)
+		return fmt.Sprintf("%s(%s,%d)", shortFn(t), arg(0, kk), kk)
+	case "exprtools.Lts", "exprtools.Les", "exprtools.Leu", "exprtools.Eq":
+		kk := min(k, w)
+		return fmt.Sprintf("%s@%d(%s,%s,%s,%s)", shortFn(t), w, arg(0, w), arg(1, w), arg(2, kk), arg(3, kk))
+	}
+	// anything else: exact structure at its own width
+	var parts []string
+	for i := range t.Args {
+		kk := 8
+		if hasW {
+			kk = w
+		}
+		parts = append(parts, canonLow(in, ops, t.Args[i], kk))
+	}
+	return shortFn(t) + "(" + strings.Join(parts, ",") + ")"
+}
+
+// canonAddr renders an address term: register loads are compared without
+// their width (address registers have the width of the variant).
+func canonAddr(in *absint.Interp, ops opConsts, v absint.Value) string {
+	t, ok := asTerm(v)
+	if !ok {
+		return absint.Render(v)
+	}
+	if t.Fn == "expr.NewRegLoad" {
+		return "areg(" + canonLow(in, ops, t.Args[0], 8) + ")"
+	}
+	var parts []string
+	for i, a := range t.Args {
+		if t.Sig != nil && i < t.Sig.Params().Len() && isExprPkgType(t.Sig.Params().At(i).Type(), "Width") {
+			continue
+		}
+		parts = append(parts, canonAddr(in, ops, a))
+	}
+	return shortFn(t) + "(" + strings.Join(parts, ",") + ")"
+}
+
+type opConsts struct{ add, lsh, rsh, mul, div, nand uint64 }
+
+func checkWTwins(c *Ctx, ri *rvInfo) {
+	in := ri.T.In
+	var ops opConsts
+	if ep := c.Prog.SSAPkg[ExprPkg]; ep != nil {
+		get := func(n string) uint64 {
+			v, ok := absint.ConstByName(ep, n)
+			if !ok {
+				c.Undecide("constant expr.%s does not resolve", n)
+			}
+			return uint64(v)
+		}
+		ops = opConsts{get("Add"), get("Lsh"), get("Rsh"), get("Mul"), get("Div"), get("Nand")}
+	}
+	byName := map[string]*absint.Entry{}
+	for _, e := range ri.T.Entries {
+		if e.Variant == ri.V32 {
+			byName[ri.extLetter(e.Ext)+"/"+e.Name] = e
+		}
+	}
+	n := 0
+	for _, e := range ri.T.Entries {
+		if e.Variant != ri.V64 {
+			continue
+		}
+		var twin *absint.Entry
+		ext := ri.extLetter(e.Ext)
+		switch {
+		case strings.HasSuffix(e.Name, ".w"):
+			twin = byName[ext+"/"+e.Name]
+		case strings.HasSuffix(e.Name, "w") && len(e.Name) > 2:
+			twin = byName[ext+"/"+strings.TrimSuffix(e.Name, "w")]
+		}
+		if twin == nil {
+			continue
+		}
+		n++
+		key := entryKey(ri, e)
+		pos := c.Prog.Pos(e.Pos)
+		f64, f32 := templateFacts(ri, e), templateFacts(ri, twin)
+		if f64.Err != nil || f32.Err != nil {
+			c.Undecide("C01.F11 %s: templates not available", key)
+			continue
+		}
+		p64, p32 := nonZeroPath(f64.Paths), nonZeroPath(f32.Paths)
+		if p64 == nil || p32 == nil {
+			c.Fail("C01.F11", key, pos, "no path without x0 operands found")
+			continue
+		}
+		e64, e32 := effectsOfPath(p64), effectsOfPath(p32)
+		bad := ""
+		if len(e64) != len(e32) {
+			bad = fmt.Sprintf("%d effects, the RV32 twin %s has %d", len(e64), twin.Name, len(e32))
+		}
+		for i := 0; i < len(e64) && bad == ""; i++ {
+			a, b := e64[i], e32[i]
+			if a.Fn != b.Fn {
+				bad = fmt.Sprintf("effect %d is %s, the RV32 twin has %s", i, shortFn(a), shortFn(b))
+				break
+			}
+			switch a.Fn {
+			case "expr.NewRegStore":
+				if ok, why := termEq(a.Args[1], b.Args[1], false); !ok {
+					bad = "register written: " + why
+					break
+				}
+				v64 := a.Args[0]
+				if t, ok := asTerm(v64); ok && t.Fn == "exprtools.SignExtend" && len(t.Args) == 3 {
+					bit, isC := asTerm(t.Args[1])
+					okBit := false
+					if isC && len(bit.Args) >= 1 {
+						if iv, ok := bit.Args[0].(absint.IntV); ok && iv.Known() && iv.V == 31 {
+							okBit = true
+						}
+					}
+					if w, ok := widthOf(in, t); !ok || w != 8 || !okBit {
+						bad = "the result is not sign-extended from bit 31 to 64 bits"
+						break
+					}
+					v64 = t.Args[0]
+				} else if vt, isT := asTerm(v64); isT && vt.Fn != "global expr.Zero" && vt.Fn != "global expr.One" {
+					bad = "the 32-bit result is written to the 64-bit register without sign extension"
+					break
+				}
+				if x, y := canonLow(in, ops, v64, 4), canonLow(in, ops, b.Args[0], 4); x != y {
+					bad = "the low 32 bits of the value written to rd differ from " + twin.Name + ": " + truncate(x, 160) + "  vs  " + truncate(y, 160)
+				}
+			case "expr.NewMemStore":
+				for k, name := range []string{"value", "key", "address", "width"} {
+					if k == 0 {
+						if x, y := canonLow(in, ops, a.Args[0], 4), canonLow(in, ops, b.Args[0], 4); x != y {
+							bad = "the low 32 bits of the stored value differ from " + twin.Name + ": " + truncate(x, 160) + "  vs  " + truncate(y, 160)
+							break
+						}
+						continue
+					}
+					if ok, why := termEq(a.Args[k], b.Args[k], k == 2); !ok {
+						bad = "stored " + name + " differs from " + twin.Name + ": " + why
+						break
+					}
+				}
+			}
+		}
+		c.Oblige("C01.F11", key, pos, bad == "", bad+" (the ISA defines "+e.Name+" as the 32-bit operation "+twin.Name+" with a sign-extended result)")
+	}
+	c.RequireCount("C01.F11 W twins", n, 25)
 }
